@@ -9,7 +9,11 @@
 (c) a few runs on the real fork and spawn backends with staggered sleeps so that each task in turn
     finishes last;
 plus the regression corpus D5a/D5b/D5c of harness/repro.py.
-Monitors: every emitted message is delivered exactly once by the time run_tasks returns."""
+Both exits of run_tasks are observed: the normal return, and — for cases with a failing task under
+continue_on_failure=False — the LabError raised from inside the loop that consumes `runner.wait()` (the generator
+is abandoned at that yield).
+Monitors: every message emitted by a task whose outcome the coordinator had consumed is delivered exactly once at
+the moment run_tasks exits (all tasks on a normal return); nothing is ever delivered twice."""
 import copy
 import json
 import os
@@ -196,8 +200,25 @@ def gen_fake_case(rng, big=False):
     n = rng.choice([1, 2, 2, 3, 3, 4] + ([6] if big else []))
     scripts = [gen_script(rng, k, big) for k in range(n)]
     last = rng.randrange(n)
+    if rng.random() < 0.35:
+        # continue_on_failure=False with a failing task: run_tasks exits by LabError in the round that yields the failure
+        failing = [k for k in range(n) if 'F' in scripts[k].split(';')]
+        if not failing:
+            k = rng.randrange(n)
+            ops = scripts[k].split(';') if scripts[k] else []
+            ops.insert(rng.randint(0, len(ops)), 'F')
+            scripts[k] = ';'.join(ops)
+            failing = [k]
+        if rng.random() < 0.6:
+            last = rng.choice(failing)   # the failing task finishes last, mostly inside executor.wait
+        return dict(kind='fake', be=rng.choice(['fork', 'spawn']), scripts=scripts, cof=False,
+                    sched=gen_sched(rng, n, last, rng.choice([0, 1, 1, 1, 1, 2])), last=last)
     return dict(kind='fake', be=rng.choice(['fork', 'spawn']), scripts=scripts,
                 sched=gen_sched(rng, n, last, rng.choice([0, 1, 1, 1, 2])), last=last)
+
+
+def failing_workers(case):
+    return [k for k, sc in enumerate(case['scripts']) if 'F' in sc.split(';')]
 
 
 def script_emits(script):
@@ -228,8 +249,9 @@ def sched_str(sched):
 
 
 def run_line(case):
-    return 'LOG run n=%d w=%s sched=%s' % (len(case['scripts']), ';'.join(script_emits(s) for s in case['scripts']),
-                                          sched_str(case['sched']))
+    return 'LOG run n=%d w=%s sched=%s cof=%d fail=%s' % (
+        len(case['scripts']), ';'.join(script_emits(s) for s in case['scripts']), sched_str(case['sched']),
+        1 if case.get('cof', True) else 0, ','.join(str(k) for k in failing_workers(case)))
 
 
 def emitted(case):
@@ -250,8 +272,10 @@ def emitted(case):
     return want
 
 
-def delivery_monitor(case, delivered, where):
-    """delivered: [(levelname, message)] seen by the caller's handler when run_tasks returned"""
+def delivery_monitor(case, delivered, where, must=None, exit_how='returned'):
+    """delivered: [(levelname, message)] seen by the caller's handler at the moment run_tasks exited.
+    must: the workers whose outcome the coordinator had consumed by then (None = all: normal return) — everything
+    they emitted must have been delivered exactly once; anything of the others at most once."""
     want = emitted(case)
     seen = {}
     for level, msg in delivered:
@@ -267,11 +291,13 @@ def delivery_monitor(case, delivered, where):
     name = {'log': 'logger record', 'out': 'stdout write', 'err': 'stderr write'}
     for m, ch in sorted(want.items()):
         got = seen.get(m, [])
+        k = m[2:].split('.')[0]
+        if must is not None and int(k) not in must and not got:
+            continue   # its outcome had not been consumed when run_tasks exited
         if got != [ch]:
-            k = m[2:].split('.')[0]
             how = ('was not delivered' if not got else f'was delivered {len(got)} times' if set(got) == {ch}
                    else f'was delivered as {got}')
-            v.append(f'{name[ch]} {m} of task {k} {how} by the time run_tasks returned ({where})')
+            v.append(f'{name[ch]} {m} of task {k} {how} by the time run_tasks {exit_how} ({where})')
     for m in seen:
         if m not in want:
             v.append(f'message {m} delivered but never emitted ({where})')
@@ -308,6 +334,7 @@ def fake_real(case):
             self.cur = None
             self.waits = 0
             self.trace = []  # per round: [records put in phase A, B, C, results consumed]
+            self.yielded = []  # workers whose outcome was handed to the coordinator
             fakeproc.bind_result_queue(inner)
             self.logqi = inner.log_queue.index
             orig = inner.executor.wait
@@ -358,7 +385,9 @@ def fake_real(case):
             self.cur = self.sched.pop(0) if self.sched else [[], [], []]
             self.trace.append([0, 0, 0, 0])
             self.apply(0)
-            yield from self.inner.wait(timeout_seconds=0)
+            for item in self.inner.wait(timeout_seconds=0):
+                self.yielded.append(item[0].k)
+                yield item
 
         def __getattr__(self, name):
             return getattr(self.inner, name)
@@ -382,7 +411,8 @@ def fake_real(case):
     status = None
     try:
         tasks = [ltasks.LogTask(k=i, script=s) for i, s in enumerate(case['scripts'])]
-        lab = labtech.Lab(storage=None, runner_backend=backend, max_workers=max(1, len(tasks)), continue_on_failure=True)
+        lab = labtech.Lab(storage=None, runner_backend=backend, max_workers=max(1, len(tasks)),
+                          continue_on_failure=bool(case.get('cof', True)))
         sink = io.StringIO()
         try:
             with contextlib.redirect_stdout(sink), contextlib.redirect_stderr(sink):
@@ -392,28 +422,51 @@ def fake_real(case):
             status = 'HANG ' + str(e)
         except BaseException as e:
             status = 'raised ' + type(e).__name__ + ' ' + str(e)[:100]
-        delivered = [r for r in rec.recs if MARK.search(r[1])]   # at the moment run_tasks returned
+        delivered = [r for r in rec.recs if MARK.search(r[1])]   # at the moment run_tasks returned / raised
         spy = backend.spy
         left = 0
         if spy is not None:
             q = spy.inner.log_queue.q
             left = q.qsize()
         trace = spy.trace if spy is not None else []
-        return dict(delivered=delivered, status=status, left=left, trace=trace)
+        return dict(delivered=delivered, status=status, left=left, trace=trace,
+                    yielded=list(spy.yielded) if spy is not None else [])
     finally:
         fakeproc.uninstall()
         lg.handlers = saved_handlers
         lg.setLevel(saved_level)
 
 
+def exit_code(status):
+    """1 returned · 2:<k> LabError for the failure of task k · 0 anything else"""
+    if status == 'returned':
+        return '1'
+    m = re.match(r'raised LabError task (\d+) fails$', status or '')
+    return '2:' + m.group(1) if m else '0'
+
+
+def fake_alarms(case, r):
+    """the delivery monitor at the exit the real run took"""
+    delivered = [tuple(x) for x in r['delivered']]
+    where = 'fake-process layer, %s' % case['be']
+    code = exit_code(r['status'])
+    if code == '1':
+        return delivery_monitor(case, delivered, where)
+    if code.startswith('2:') and not case.get('cof', True):
+        ys = sorted(set(r.get('yielded', [])))
+        return delivery_monitor(case, delivered, where + ', continue_on_failure=False, outcomes consumed: tasks %s' % ys,
+                                must=set(ys), exit_how='raised LabError')
+    return [f'run_tasks did not exit normally under the fake-process layer: {r["status"]}']
+
+
 def fake_observation(res):
-    return 'ok exited=%d delivered=%s' % (1 if res['status'] == 'returned' else 0,
+    return 'ok exited=%s delivered=%s' % (exit_code(res['status']),
                                           ','.join('%s:x%s' % ('E' if lv == 'ERROR' else 'I', hx(m)) for lv, m in res['delivered']))
 
 
 def model_observation(line_out):
     """drop the worker tags and the counters the real side does not observe"""
-    m = re.match(r'ok exited=(\d) delivered=(\S*) left=(\d+) todo=(\d+)$', line_out)
+    m = re.match(r'ok exited=(\S+) delivered=(\S*) left=(\d+) todo=(\d+)$', line_out)
     if not m:
         return line_out
     recs = [x.split(':', 1)[1] for x in m.group(2).split(',')] if m.group(2) else []
@@ -448,7 +501,8 @@ def real_run(job):
     lg.handlers = [rec]
     lg.setLevel(logging.INFO)
     tasks = [ltasks.LogTask(k=i, script=s) for i, s in enumerate(job['scripts'])]
-    lab = labtech.Lab(storage=None, runner_backend=job['be'], max_workers=len(tasks), continue_on_failure=True)
+    lab = labtech.Lab(storage=None, runner_backend=job['be'], max_workers=len(tasks),
+                      continue_on_failure=bool(job.get('cof', True)))
     sink = io.StringIO()
     try:
         with contextlib.redirect_stdout(sink), contextlib.redirect_stderr(sink):
@@ -480,6 +534,16 @@ def gen_real_cases(rng, tier):
                     ops.append('F')
                 scripts.append(';'.join(ops))
             cases.append(dict(kind='real', be=be, scripts=scripts, last=last))
+    # continue_on_failure=False: task 0 finishes in an early polling round, task 1 logs, prints (with an explicit
+    # flush), warns and fails inside a later round, task 2 is still running when run_tasks raises
+    for be in (('fork', 'spawn') if tier == 'thorough' else ('fork',)):
+        scripts = [
+            'L' + hx('quick @@0.0@') + ';P' + hx('quick out @@0.1@'),
+            'S700;L' + hx('diag @@1.0@') + ';P' + hx('diag out @@1.1@') + ';O;Q' + hx('diag err @@1.2@')
+            + ';W' + hx('unflushed tail @@1.3@') + ';F',
+            'L' + hx('slow start @@2.0@') + ';S2500;L' + hx('slow end @@2.1@'),
+        ]
+        cases.append(dict(kind='real', be=be, scripts=scripts, last=1, cof=False))
     if tier == 'thorough':
         extra = []
         for c in cases:
@@ -501,7 +565,7 @@ def per_worker(delivered):
 
 
 def model_per_worker(line_out):
-    m = re.match(r'ok exited=(\d) delivered=(\S*) left=(\d+) todo=(\d+)$', line_out)
+    m = re.match(r'ok exited=(\S+) delivered=(\S*) left=(\d+) todo=(\d+)$', line_out)
     out = {}
     if m and m.group(2):
         for x in m.group(2).split(','):
@@ -568,7 +632,7 @@ def run_fake_batch(cases, wd, name='fb', workers=8, timeout=240):
 def shrink_fake(case, wd, budget=12):
     def alarms(results, cands):
         for c, r in zip(cands, results):
-            if r is not None and r.get('status') == 'returned' and delivery_monitor(c, [tuple(x) for x in r['delivered']], 'fake'):
+            if r is not None and exit_code(r.get('status')) != '0' and fake_alarms(c, r):
                 return c
         return None
     cur = case
@@ -657,8 +721,9 @@ RULE = ('(a) write/flush sequences on LoggerFileProxy with blank, near-blank and
         'scripted workers (logger.info / stdout+stderr write / print / flush, optional failure) over the fake-process layer '
         'under a schedule that decides what becomes visible before a wait, inside its executor.wait and between result drain '
         'and second log drain, with a chosen last-finishing task; (c) real fork/spawn runs with each task in turn sleeping '
-        'longest. Non-trivial = (a) sequences with >= 2 flushes and >= 2 non-blank writes, (b) cases in which, in the round '
-        'that consumed the last result, a record reached the log queue after that round\'s first drain; distinct by protocol line')
+        'longest; about a third of the (b) cases and one real fork run (thorough: also spawn) have a failing task under '
+        'continue_on_failure=False, so that run_tasks exits by LabError in the round that yields the failure. Non-trivial = (a) sequences with >= 2 flushes and >= 2 non-blank writes, (b) cases in which, in the round '
+        'that consumed the last result before the exit (return or LabError), a record reached the log queue after that round\'s first drain; distinct by protocol line')
 
 CORPUS_PROXY = [
     dict(kind='proxy', pre='P:', ops=[['w', 'a'], ['f'], ['w', 'b'], ['f']]),                       # D5a
@@ -666,6 +731,15 @@ CORPUS_PROXY = [
     dict(kind='proxy', pre=OUT_PRE, ops=[['w', '\u200b'], ['w', '\x1f'], ['w', '\xa0\u3000'], ['f']]),
 ]
 CORPUS_FAKE = [
+    # continue_on_failure=False: the failing task (its diagnostics flushed explicitly) and a round-mate both finish inside
+    # executor.wait; the coordinator raises LabError at the first yield — the drain must already have happened
+    dict(kind='fake', be='fork', cof=False,
+         scripts=['L' + hx('mate @@0.0@') + ';P' + hx('mate out @@0.1@'),
+                  'L' + hx('diag @@1.0@') + ';P' + hx('diag out @@1.1@') + ';O;Q' + hx('diag err @@1.2@') + ';F'],
+         sched=[[[], [['f', 1], ['f', 0]], []], [[], [], []], [[], [], []]], last=1),
+    dict(kind='fake', be='spawn', cof=False,
+         scripts=['F', 'L' + hx('other @@1.0@'), 'P' + hx('late @@2.0@')],
+         sched=[[[['a', 1, 1]], [['f', 0]], [['f', 1]]], [[], [], []], [[], [], []]], last=0),
     # D5b: prints, no flush, the printing task is the last to finish and finishes inside executor.wait
     dict(kind='fake', be='fork', scripts=['P' + hx('PRINT @@0.0@'), 'P' + hx('PRINT @@1.0@')],
          sched=[[[], [['f', 0]], []], [[], [['f', 1]], []], [[], [], []], [[], [], []]], last=1),
@@ -724,11 +798,15 @@ def eval_fake(cases, results, driver, out):
         d['fake_workers'][str(len(c['scripts']))] = d['fake_workers'].get(str(len(c['scripts'])), 0) + 1
         delivered = [tuple(x) for x in r['delivered']]
         d['fake_records_delivered'] += len(delivered)
-        if r['status'] != 'returned':
-            out['raw'].append((f'run_tasks did not return normally under the fake-process layer: {r["status"]}', c))
-            continue
-        for what in delivery_monitor(c, delivered, 'fake-process layer, %s' % c['be']):
+        if not c.get('cof', True):
+            d['fake_continue_on_failure_false'] += 1
+            if exit_code(r['status']).startswith('2:'):
+                d['fake_exit_by_LabError'] += 1
+        alarms = fake_alarms(c, r)
+        for what in alarms:
             out['raw'].append((what, c))
+        if exit_code(r['status']) == '0':
+            continue
         if r.get('left'):
             d['fake_left_on_queue'] += 1
         real_obs, model_obs = fake_observation(r), model_observation(m)
@@ -755,8 +833,20 @@ def eval_real(cases, reps, driver, out):
         out['evaluations'] += 1
         out['dist']['real_' + c['be']] += 1
         delivered = [tuple(x) for x in rep['delivered']]
-        if rep['status'] != 'returned':
-            out['raw'].append((f'run_tasks did not return normally on the real {c["be"]} backend: {rep["status"]}', c))
+        code = exit_code(rep['status'])
+        if code.startswith('2:') and not c.get('cof', True):
+            # exit by LabError: the failing task's outcome was consumed for sure; the others at most once
+            out['dist']['real_exit_by_LabError'] += 1
+            k = int(code[2:])
+            for what in delivery_monitor(c, delivered, 'real %s backend, continue_on_failure=False, task %d fails' % (c['be'], k),
+                                         must={k}, exit_how='raised LabError'):
+                out['raw'].append((what, c))
+            rw, mw = per_worker(delivered), model_per_worker(m)
+            if rw.get(str(k), []) != mw.get(str(k), []):
+                out['disagreements'].append(dict(line=line, case=c, real=rw.get(str(k)), model=mw.get(str(k))))
+            continue
+        if code != '1':
+            out['raw'].append((f'run_tasks did not exit normally on the real {c["be"]} backend: {rep["status"]}', c))
             continue
         for what in delivery_monitor(c, delivered, 'real %s backend, task %d finishes last' % (c['be'], c['last'])):
             out['raw'].append((what, c))
@@ -769,6 +859,7 @@ def new_out():
     return dict(evaluations=0, raw=[], disagreements=[], nontrivial=set(), samples=[], errors=[],
                 dist=dict(proxy_sequences=0, proxy_blank_writes=0, proxy_flushes=0, fake_cases=0, fake_fork=0, fake_spawn=0,
                           fake_workers={}, fake_records_delivered=0, fake_second_drain_needed=0, fake_with_failing_task=0,
+                          fake_continue_on_failure_false=0, fake_exit_by_LabError=0, real_exit_by_LabError=0,
                           fake_left_on_queue=0, real_fork=0, real_spawn=0, whitespace_codepoints_checked=0))
 
 
@@ -861,7 +952,7 @@ def finish(ctx, out, wd, shrink_it):
             small = shrink_fake(c, wd)
             res, _ = run_fake_batch([small], wd, name='fin')
             if res and res[0] is not None:
-                vs = delivery_monitor(small, [tuple(x) for x in res[0]['delivered']], 'fake-process layer, %s' % small['be'])
+                vs = fake_alarms(small, res[0])
                 what = (vs or [what])[0]
             replay = dict(kind='fake', case=small, line=run_line(small), real=fake_observation(res[0]) if res and res[0] else None)
         else:
@@ -884,7 +975,8 @@ def finish(ctx, out, wd, shrink_it):
         explanation='(a) real LoggerFileProxy vs LOG proxy: final bufs and every logger_func message; monitor: messages = the non-empty '
                     'groups of non-blank writes between flushes. (b) real coordinator loop + ProcessRunner.wait + _subprocess_func over the '
                     'fake-process layer: sequence of (level, message) at the parent\'s handler when run_tasks returns vs LOG run; monitor: '
-                    'every emitted marker delivered exactly once on the right channel. (c) real fork/spawn: same monitor; per-worker '
+                    'every marker emitted by a task whose outcome was consumed before the exit (all tasks on return; the yielded ones on '
+                    'LabError) delivered exactly once on the right channel, nothing twice. (c) real fork/spawn: same monitor; per-worker '
                     'record sequences vs the model. Regression corpus D5a/D5b/D5c.',
     )
 
